@@ -462,6 +462,34 @@ func (m *Machine) assert(c *Term, label string) {
 	}
 }
 
+// possible: violation iff pc && c is unsatisfiable.
+func (m *Machine) possible(c *Term, label string) {
+	if c.IsTrue() {
+		m.out.Trivial++
+		return
+	}
+	if c.IsFalse() {
+		m.ensureModel()
+		m.violation("possible", label, "the condition holds for no value of the environment's choices on this path", m.model)
+		panic(pathEnd{"violation"})
+	}
+	if v, ok := m.evalUnderModelNoSolve(c); ok && v == 1 {
+		m.out.Trivial++
+		return
+	}
+	res, _ := m.checkWith(c)
+	switch res {
+	case Sat:
+		m.out.Obligations++
+	case Unsat:
+		m.ensureModel()
+		m.violation("possible", label, "the condition holds for no value of the environment's choices on this path", m.model)
+		panic(pathEnd{"violation"})
+	case Unknown:
+		m.noteUnknown("possible " + label)
+	}
+}
+
 func (m *Machine) evalUnderModelNoSolve(t *Term) (uint64, bool) {
 	if m.model == nil || m.hasUF(t) {
 		return 0, false
